@@ -58,7 +58,7 @@ pub enum HEv {
     CbDropped { fid: u32 },
     StoreOpen { generation: u32, ok: bool },
     DropBegin { generation: u32 },
-    DropEnd { generation: u32 },
+    DropEnd { generation: u32, clean: bool },
     ThreadEnter(u8),
     ThreadExit(u8),
     Note(String),
@@ -406,7 +406,6 @@ impl Sim {
             std::thread::sleep(std::time::Duration::from_micros(50));
             return true;
         };
-        TICK.fetch_add(1, Ordering::Relaxed);
         let mut st = lock();
         if !st.active {
             drop(st);
@@ -534,6 +533,10 @@ impl raft_log::verif_hooks::Hooks for H {
         sim().yield_point(site)
     }
     fn blocked(&self, site: &'static str) {
+        if site == "join_worker" {
+            // the joiner has just closed the request channel: that is progress the worker must see
+            sim().progress();
+        }
         sim().blocked(site);
     }
     fn spawn_begin(&self) -> u64 {
